@@ -14,9 +14,8 @@ Y4 (A4/A5) acquire handling: addresses from the template, selectors from the acq
 """
 import ast
 
-from ..finite import Interp
-from ..model import src, walk_no_nested
-from ..terms import callee_name, calls_in, compare_parts, kwargs_of, single_def
+from ..sval import NONE, const, same, strip_ids
+from .. import tq
 from . import common
 
 EXPLANATION = ('static analysis: dominance of policy installation by the flushes, the three create_policy calls compared as an '
@@ -27,199 +26,243 @@ ASSUMPTIONS = [
     'the SPD contents as a runtime model',
 ]
 
-SIGMA = {'src_selector': 'dst_selector', 'dst_selector': 'src_selector', 'src_port': 'dst_port', 'dst_port': 'src_port',
-         'ike_conf.my_addr': 'ike_conf.peer_addr', 'ike_conf.peer_addr': 'ike_conf.my_addr'}
+def attr(t, n):
+    return ('attr', t, n)
+
+
+def P(n):
+    return ('param', n)
+
+
+def mirror(t, pairs):
+    if isinstance(t, tuple):
+        for x, y in pairs:
+            if t == x:
+                return y
+            if t == y:
+                return x
+        return tuple(mirror(z, pairs) for z in t)
+    return t
 
 
 def run(ctx):
     prog, res = ctx.prog, ctx.res
-    esc = ctx.escape('engine', kills=common.engine_kills(ctx))
 
     # ---------------------------------------------------------------- Y1
     ci = ctx.func('ikesacontroller.IkeSaController.__init__')
-    g = esc.add_exception_edges(ci)
-    fp = [n for n, x in common.nodes_calling(ctx, ci, g, common.calls_named('flush_policies'))]
-    fs = [n for n, x in common.nodes_calling(ctx, ci, g, common.calls_named('flush_sas'))]
-    cp = [(n, x) for n, x in common.nodes_calling(ctx, ci, g, common.calls_named('create_policies'))]
-    ctx.check(len(fp) >= 1 and len(fs) >= 1, 'Y1', 'the controller flushes the SPD and the SAD at start-up', key=('Y1', 'flushes-present'),
-              site=ctx.site(ci, ci.node))
-    ctx.check(len(cp) == 1, 'Y1', 'the controller installs the configured policies at start-up', key=('Y1', 'install-present'),
-              site=ctx.site(ci, ci.node))
-    for n, x in cp:
-        ctx.check(bool(fp) and n.id not in g.reach([g.entry], blocked_nodes=fp, follow_exc=False), 'Y1',
-                  'no policy is installed before the SPD was flushed', key=('Y1', 'flush-policies-first'), site=ctx.site(ci, x))
-        ctx.check(bool(fs) and n.id not in g.reach([g.entry], blocked_nodes=fs, follow_exc=False), 'Y1',
-                  'no policy is installed before the SAD was flushed', key=('Y1', 'flush-sas-first'), site=ctx.site(ci, x))
-        loops = [l for h, l in g.loops if isinstance(l, ast.For) and any(y is x for y in ast.walk(l))]
-        ok = len(loops) == 1 and src(loops[0].iter) == 'self.configuration.ike_configurations.values()' \
-            and [src(a) for a in x.args] == [src(loops[0].target)] and len(loops[0].body) == 1
+    CI = ctx.sval(ci)
+    site = ctx.site(ci, ci.node)
+    fp = CI.calls_to(qual='xfrm.Xfrm.flush_policies')
+    fs = CI.calls_to(qual='xfrm.Xfrm.flush_sas')
+    cp = CI.calls_to(qual='xfrm.Xfrm.create_policies')
+    ctx.check(len(fp) >= 1 and len(fs) >= 1, 'Y1', 'the controller flushes the SPD and the SAD at start-up', key=('Y1', 'flushes-present'), site=site)
+    ctx.check(len(cp) == 1, 'Y1', 'the controller installs the configured policies at start-up', key=('Y1', 'install-present'), site=site)
+    for c in cp:
+        ctx.check(any(not f.pc and f.seq < c.seq for f in fp), 'Y1', 'no policy is installed before the SPD was flushed (unconditionally)',
+                  key=('Y1', 'flush-policies-first'), site=ctx.site(ci, c.node))
+        ctx.check(any(not f.pc and f.seq < c.seq for f in fs), 'Y1', 'no policy is installed before the SAD was flushed (unconditionally)',
+                  key=('Y1', 'flush-sas-first'), site=ctx.site(ci, c.node))
+        a = strip_ids(list(c.args.values())[0]) if c.args else ('undef',)
+        conf = strip_ids(CI.expr('self.configuration.ike_configurations.values()', dict(CI.entry_env, **{'self.configuration': CI.final('self.configuration') or attr(P('self'), 'configuration')})))
+        alt = strip_ids(CI.expr('self.configuration.ike_configurations.values()'))
+        ok = a[0] == 'elem' and a[1] in (conf, alt, strip_ids(CI.expr('configuration.ike_configurations.values()'))) and not c.pc
         ctx.check(ok, 'Y1', 'policies are installed for every connection of the configuration', key=('Y1', 'all-connections'),
-                  site=ctx.site(ci, x))
+                  site=ctx.site(ci, c.node), detail={'argument': tq.text(a), 'condition': [tq.text(x[0]) for x in c.pc]})
     cl = ctx.func('ikesacontroller.IkeSaController.close')
-    gc = esc.add_exception_edges(cl)
+    CL = ctx.sval(cl)
     for name in ('flush_policies', 'flush_sas'):
-        ns = [n for n, x in common.nodes_calling(ctx, cl, gc, common.calls_named(name))]
-        ctx.check(bool(ns) and gc.exit.id not in gc.reach([gc.entry], blocked_nodes=ns, follow_exc=False), 'Y1',
-                  'close() calls %s on every path' % name, key=('Y1', 'close', name), site=ctx.site(cl, cl.node))
+        ns = CL.calls_to(qual='xfrm.Xfrm.' + name)
+        ctx.check(any(not c.pc for c in ns), 'Y1', 'close() calls %s on every path' % name, key=('Y1', 'close', name), site=ctx.site(cl, cl.node))
     py = prog.module('pyikev2')
-    t = src(py.tree)
-    ctx.check('ike_sa_controller.close()' in t and 'signal.signal(signal.SIGINT, signal_handler)' in t, 'Y1',
-              'the daemon closes the controller on SIGINT', key=('Y1', 'sigint'))
+    from ..sval import module_body
+    MB = module_body(prog, res, py)
+    sig = [c for c in MB.calls if c.callee == 'signal.signal' and tq.text(c.args.get('#0', NONE)) == 'signal.SIGINT']
+    hname = None
+    if len(sig) == 1:
+        h = sig[0].args.get('#1', NONE)
+        hname = h[1] if h[0] == 'localdef' else None
+    hf = prog.functions.get('pyikev2.%s' % hname) if hname else None
+    ok = hf is not None and any(c.name == 'close' and any(q.endswith('IkeSaController.close') for q in c.quals) or
+                                (c.name == 'close' and 'controller' in tq.text(c.recv or NONE)) for c in ctx.sval(hf).calls)
+    ctx.check(ok, 'Y1', 'the daemon closes the controller on SIGINT', key=('Y1', 'sigint'))
 
     # ---------------------------------------------------------------- Y2
     cps = ctx.func('xfrm.Xfrm.create_policies')
     cpf = ctx.func('xfrm.Xfrm.create_policy')
-    loops = [n for n in walk_no_nested(cps.node) if isinstance(n, ast.For)]
-    ok = len(loops) == 1 and src(loops[0].iter) == cps.call_params()[0] + '.protect'
-    ctx.check(ok, 'Y2', 'create_policies covers every protect entry of the connection', key=('Y2', 'all-entries'), site=ctx.site(cps, cps.node))
-    ent = src(loops[0].target) if ok else 'ipsec_conf'
-    calls = [c for c in calls_in(cps.node) if callee_name(c) == 'create_policy']
-    ctx.check(len(calls) == 3 and ok and all(any(c is y for y in ast.walk(loops[0])) for c in calls) and not any(
-        isinstance(n, (ast.If, ast.Continue, ast.Break)) for n in ast.walk(loops[0])), 'Y2',
-        'exactly three policies are installed per entry, unconditionally', key=('Y2', 'three'), site=ctx.site(cps, cps.node),
-        detail={'found': len(calls)})
+    S = ctx.sval(cps)
+    site = ctx.site(cps, cps.node)
+    conn = P(cps.call_params()[0])
+    calls = S.calls_to(qual=cpf.qual)
+    ents = {strip_ids(x) for c in calls for x in tq.find(c.term, lambda t: t[0] == 'elem')}
+    E = ('elem', attr(conn, 'protect'), 0)
+    ctx.check(ents == {E}, 'Y2', 'create_policies covers every protect entry of the connection', key=('Y2', 'all-entries'), site=site,
+              detail={'iterates': [tq.text(x) for x in ents]})
+    ctx.check(len(calls) == 3 and all(not c.pc for c in calls) and len({c.seq for c in calls}) == 3, 'Y2',
+              'exactly three policies are installed per entry, unconditionally', key=('Y2', 'three'), site=site, detail={'found': len(calls)})
+    enc = None
     if len(calls) == 3:
-        bs = [{k: src(v) for k, v in kwargs_of(c, target=cpf).items()} for c in calls]
-        dirs = {b.get('direction'): b for b in bs}
+        bs = [{k: strip_ids(v) for k, v in c.args.items()} for c in calls]
+        dirs = {tq.text(b.get('direction', NONE)).split('.')[-1]: b for b in bs}
         ctx.check(set(dirs) == {'XFRM_POLICY_OUT', 'XFRM_POLICY_IN', 'XFRM_POLICY_FWD'}, 'Y2',
-                  'the three policies have directions OUT, IN and FWD', key=('Y2', 'directions'), site=ctx.site(cps, cps.node),
-                  detail={'found': sorted(str(d) for d in dirs)})
+                  'the three policies have directions OUT, IN and FWD', key=('Y2', 'directions'), site=site, detail={'found': sorted(dirs)})
         out = dirs.get('XFRM_POLICY_OUT')
         if out is not None and len(dirs) == 3:
-            want = {'src_selector': 'src_selector', 'dst_selector': 'dst_selector', 'src_port': 'src_port', 'dst_port': 'dst_port',
-                    'ip_proto': 'ip_proto', 'ipsec_proto': 'ipsec_proto', 'mode': ent + '.mode', 'src': 'ike_conf.my_addr',
-                    'dst': 'ike_conf.peer_addr', 'index': 'index'}
+            X = lambda text: strip_ids(S.expr(text, dict(S.entry_env, E=E)))    # noqa: E731
+            want = {'src_selector': X('E.my_ts.get_network()'), 'dst_selector': X('E.peer_ts.get_network()'),
+                    'src_port': X('E.my_ts.get_port()'), 'dst_port': X('E.peer_ts.get_port()'), 'ip_proto': X('E.my_ts.ip_proto'),
+                    'mode': X('E.mode'), 'src': attr(conn, 'my_addr'), 'dst': attr(conn, 'peer_addr')}
             for k, v in want.items():
-                ctx.check(out.get(k) == v, 'Y2', 'outbound policy: %s = %s' % (k, v), key=('Y2', 'out', k), site=ctx.site(cps, cps.node),
-                          detail={'found': out.get(k)})
+                ctx.check(out.get(k) == v, 'Y2', 'outbound policy: %s = %s' % (k, tq.text(v)), key=('Y2', 'out', k), site=site,
+                          detail={'found': tq.text(out[k]) if k in out else None})
+            pr = out.get('ipsec_proto')
+            vals = None
+            if pr is not None:
+                vals = []
+                for proto in ('ESP', 'AH'):
+                    def leaf(t, proto=proto):
+                        if t == attr(attr(E, 'proposal'), 'protocol_id'):
+                            return proto
+                        if t[0] == 'global' and t[1].endswith('Protocol.ESP'):
+                            return 'ESP'
+                        if t[0] == 'global' and t[1] in ('socket.IPPROTO_ESP', 'socket.IPPROTO_AH'):
+                            return t[1]
+                        raise tq.NoValue()
+                    try:
+                        vals.append(tq.teval(pr, leaf))
+                    except (tq.NoValue, Exception):
+                        vals.append(None)
+            ctx.check(vals == ['socket.IPPROTO_ESP', 'socket.IPPROTO_AH'], 'Y2', 'the template protocol is ESP for ESP entries and AH otherwise',
+                      key=('Y2', 'ipsec-proto'), site=site, detail={'found': tq.text(pr) if pr is not None else None})
+            enc = out.get('index')
+            ctx.check(enc is not None, 'Y2', 'the outbound policy carries the index', key=('Y2', 'out', 'index'), site=site)
+            sigma = [(attr(E, 'my_ts'), attr(E, 'peer_ts')), (attr(conn, 'my_addr'), attr(conn, 'peer_addr'))]
             for d in ('XFRM_POLICY_IN', 'XFRM_POLICY_FWD'):
                 b = dirs[d]
-                ctx.check('index' not in b, 'Y2', '%s policy carries no index (acquires come from outbound policies only)' % d[12:],
-                          key=('Y2', d, 'no-index'), site=ctx.site(cps, cps.node))
+                ctx.check(b.get('index') in (None, const(0)), 'Y2', '%s policy carries no index (acquires come from outbound policies only)' % d[12:],
+                          key=('Y2', d, 'no-index'), site=site)
                 for k in cpf.call_params():
                     if k in ('direction', 'index'):
                         continue
                     v1 = out.get(k)
-                    ctx.check(v1 is not None and b.get(k) == SIGMA.get(v1, v1), 'Y2', '%s policy: %s is the mirror image of the outbound '
-                              'policy\'s (%s)' % (d[12:], k, SIGMA.get(v1, v1) if v1 else '?'), key=('Y2', d, 'mirror', k),
-                              site=ctx.site(cps, cps.node), detail={'outbound': v1, 'found': b.get(k)})
-        loc = {'src_selector': ent + '.my_ts.get_network()', 'dst_selector': ent + '.peer_ts.get_network()',
-               'src_port': ent + '.my_ts.get_port()', 'dst_port': ent + '.peer_ts.get_port()', 'ip_proto': ent + '.my_ts.ip_proto'}
-        for k, v in loc.items():
-            d = single_def(res, cps, k)
-            ctx.check(isinstance(d, ast.AST) and src(d) == v, 'Y2', '%s = %s' % (k, v), key=('Y2', 'local', k), site=ctx.site(cps, cps.node))
-        d = single_def(res, cps, 'ipsec_proto')
-        ok = isinstance(d, ast.IfExp) and src(d.body) == 'socket.IPPROTO_ESP' and src(d.orelse) == 'socket.IPPROTO_AH' \
-            and src(d.test) == ent + '.proposal.protocol_id == Proposal.Protocol.ESP'
-        ctx.check(ok, 'Y2', 'the template protocol is ESP for ESP entries and AH otherwise', key=('Y2', 'ipsec-proto'), site=ctx.site(cps, cps.node))
+                    exp = mirror(v1, sigma) if v1 is not None else None
+                    if k == 'ip_proto':
+                        exp = v1
+                    ctx.check(v1 is not None and b.get(k) == exp, 'Y2', '%s policy: %s is the mirror image of the outbound policy\'s' % (d[12:], k),
+                              key=('Y2', d, 'mirror', k), site=site,
+                              detail={'outbound': tq.text(v1) if v1 else None, 'found': tq.text(b[k]) if k in b else None})
 
     # ---------------------------------------------------------------- Y3
-    idx = single_def(res, cps, 'index')
     pa = ctx.func('ikesacontroller.IkeSaController.process_acquire')
-    dec = [c for c in calls_in(pa.node) if callee_name(c) == 'process_acquire']
-    ctx.check(isinstance(idx, ast.AST) and len(dec) == 1 and len(dec[0].args) == 3, 'Y3', 'anchors: index encoding in create_policies '
+    A = ctx.sval(pa)
+    p0, p1 = pa.call_params()[0], pa.call_params()[1]
+    dec = A.calls_to(qual='ikesa.IkeSa.process_acquire')
+    ctx.check(enc is not None and len(dec) == 1 and 'index' in dec[0].args, 'Y3', 'anchors: index encoding in create_policies '
               'and decoding in the controller', key=('Y3', 'anchors'))
-    if isinstance(idx, ast.AST) and len(dec) == 1 and len(dec[0].args) == 3:
-        dexpr = dec[0].args[2]
+    if enc is not None and len(dec) == 1 and 'index' in dec[0].args:
+        dterm = dec[0].args['index']
         out_v = prog.const_eval(ast.parse('XFRM_POLICY_OUT', mode='eval').body, cps.module)
         bad = None
+        src_t = attr(attr(P(p0), 'policy'), 'index')
         for i in list(range(0, 40)) + [255, 256, 2 ** 20, 2 ** 20 - 1, 123457]:
-            enc = Interp(prog, cps, {ent + '.index': i, 'XFRM_POLICY_OUT': out_v}).ev(idx)
-            d = Interp(prog, pa, {'xfrm_acquire.policy.index': enc}).ev(dexpr)
-            if d != i or enc % 8 != out_v or enc >> 3 != i:
-                bad = bad or (i, enc, d)
+            def leaf_e(t, i=i):
+                if t == attr(E, 'index'):
+                    return i
+                if t[0] == 'global' and t[1].endswith('XFRM_POLICY_OUT'):
+                    return out_v
+                raise tq.NoValue()
+            try:
+                e = tq.teval(enc, leaf_e)
+
+                def leaf_d(t, e=e):
+                    if strip_ids(t) == src_t:
+                        return e
+                    raise tq.NoValue()
+                d = tq.teval(dterm, leaf_d)
+            except (tq.NoValue, Exception) as ex:
+                bad = bad or (i, 'cannot evaluate', str(ex)[:80])
+                continue
+            if d != i or e % 8 != out_v or e >> 3 != i:
+                bad = bad or (i, e, d)
         ctx.check(bad is None, 'Y3', 'policy index = entry index << 3 | XFRM_POLICY_OUT, and the controller recovers the entry index '
                   'with >> 3 (45 indices evaluated)', key=('Y3', 'roundtrip'), site=ctx.site(cps, cps.node),
-                  detail={'index,encoded,decoded': bad, 'encode': src(idx), 'decode': src(dexpr)})
-        ctx.check(src(dexpr).startswith('xfrm_acquire.policy.index'), 'Y3', 'the decoded value is the index of the policy that triggered '
-                  'the acquire', key=('Y3', 'decode-source'), site=ctx.site(pa, dec[0]))
+                  detail={'index,encoded,decoded': bad, 'encode': tq.text(enc), 'decode': tq.text(dterm)})
+        ctx.check(tq.contains(dterm, src_t), 'Y3', 'the decoded value is the index of the policy that triggered the acquire',
+                  key=('Y3', 'decode-source'), site=ctx.site(pa, dec[0].node))
         dv = [prog.const_eval(ast.parse(n, mode='eval').body, cps.module) for n in ('XFRM_POLICY_IN', 'XFRM_POLICY_OUT', 'XFRM_POLICY_FWD')]
         ctx.check(all(0 <= v < 8 for v in dv) and len(set(dv)) == 3, 'Y3', 'the three direction constants are distinct and fit in the 3 low bits',
                   key=('Y3', 'dir-bits'), detail={'found': dv})
 
     # ---------------------------------------------------------------- Y4 controller
-    g = esc.add_exception_edges(pa)
-    p0, p1 = pa.call_params()[0], pa.call_params()[1]
-    fam = single_def(res, pa, 'family')
-    ctx.check(isinstance(fam, ast.AST) and src(fam) == '%s[xfrm.XFRMA_TMPL].family' % p1, 'Y4', 'the address family is the template\'s',
-              key=('Y4', 'family'), site=ctx.site(pa, pa.node))
-    pd = [src(d) for d in res.local_defs(pa).get('peer_addr', []) if isinstance(d, ast.AST)]
-    md = [src(d) for d in res.local_defs(pa).get('my_addr', []) if isinstance(d, ast.AST)]
-    ctx.check(pd == ['%s.id.daddr.to_ipaddr(family)' % p0] and set(md) == {'%s.saddr.to_ipaddr(family)' % p0}, 'Y4',
-              'peer address = template destination (id.daddr), local address = saddr', key=('Y4', 'addresses'), site=ctx.site(pa, pa.node),
-              detail={'peer': pd, 'my': md})
-    look = [(n, x) for n, x in common.nodes_calling(ctx, pa, g, common.calls_named('_get_ike_sa_by_peer_addr'))]
-    ctors = [(n, x) for n, x in common.nodes_calling(ctx, pa, g, common.calls_named('IkeSa'))]
-    ok = len(look) == 1 and len(ctors) == 1 and [src(a) for a in look[0][1].args] == ['peer_addr'] \
-        and any(part == 'handler' and 'StopIteration' in src(hn.ast.type) for (_, part, hn) in ctors[0][0].try_ctx if part == 'handler')
-    ctx.check(ok, 'Y4', 'an IKE_SA with that peer is looked up first; a new one is created only when there is none', key=('Y4', 'reuse'),
-              site=ctx.site(pa, pa.node))
+    site = ctx.site(pa, pa.node)
+    fam = '%s[xfrm.XFRMA_TMPL].family' % p1
+    peer = strip_ids(A.expr('%s.id.daddr.to_ipaddr(%s)' % (p0, fam)))
+    mine = strip_ids(A.expr('%s.saddr.to_ipaddr(%s)' % (p0, fam)))
+    look = A.calls_to(qual='ikesacontroller.IkeSaController._get_ike_sa_by_peer_addr')
+    ctors = A.calls_to(callee='new ikesa.IkeSa')
+    ok = len(look) == 1 and len(ctors) == 1 and strip_ids(list(look[0].args.values())[0]) == peer
+    ctx.check(ok, 'Y4', 'an IKE_SA is looked up by the template destination (id.daddr, in the template\'s family)', key=('Y4', 'addresses'),
+              site=site, detail={'lookup': [tq.text(v) for c in look for v in c.args.values()]})
+    ok = ok and look[0].seq < ctors[0].seq and any(a[0][0] == 'caught' and 'StopIteration' in tq.text(a[0]) and a[1] for a in ctors[0].pc) \
+        and not any(a[0][0] == 'caught' for a in look[0].pc)
+    ctx.check(ok, 'Y4', 'an IKE_SA with that peer is looked up first; a new one is created only when there is none', key=('Y4', 'reuse'), site=site)
     bp = ctx.func('ikesacontroller.IkeSaController._get_ike_sa_by_peer_addr')
-    ctx.check(src(bp.node.body[-1]) == 'return next((x for x in self.ike_sas if x.peer_addr == %s))' % bp.call_params()[0], 'Y4',
-              'the lookup compares the peer address of each table entry', key=('Y4', 'by-peer'), site=ctx.site(bp, bp.node))
-    for n, x in ctors:
-        b = {k: src(v) for k, v in kwargs_of(x, target=ctx.func('ikesa.IkeSa.__init__')).items()}
-        conf = single_def(res, pa, b.get('configuration', ''))
-        ok = b.get('is_initiator') == 'True' and b.get('my_addr') == 'my_addr' and b.get('peer_addr') == 'peer_addr' \
-            and isinstance(conf, ast.AST) and src(conf) == 'self.configuration.get_ike_configuration(my_addr, peer_addr)'
-        ctx.check(ok, 'Y4', 'the new IKE_SA is an initiator for (local, peer) with the connection configured for that address pair',
-                  key=('Y4', 'new-ike-sa'), site=ctx.site(pa, x), detail={'found': b})
-        ap = [m for m, y in common.nodes_calling(ctx, pa, g, common.calls_named('append')) if 'ike_sas' in src(y.func.value)]
-        ctx.check(len(ap) == 1 and ap[0].id in g.reach([n]), 'Y4', 'and is registered in the table', key=('Y4', 'registered'), site=ctx.site(pa, x))
-    for name, addr, port in (('small_tsi', 'saddr', 'sport'), ('small_tsr', 'daddr', 'dport')):
-        d = single_def(res, pa, name)
-        ok = isinstance(d, ast.Call) and callee_name(d) == 'from_network' and [src(a) for a in d.args] == [
-            'ip_network(%s.sel.%s.to_ipaddr(sel_family))' % (p0, addr), '%s.sel.%s' % (p0, port), '%s.sel.proto' % p0]
-        ctx.check(ok, 'Y4', '%s is built from the acquire selector\'s %s / %s / proto' % (name, addr, port), key=('Y4', name),
-                  site=ctx.site(pa, pa.node))
-    sf = single_def(res, pa, 'sel_family')
-    ctx.check(isinstance(sf, ast.AST) and src(sf) == p0 + '.sel.family', 'Y4', 'selector addresses are read in the selector\'s family',
-              key=('Y4', 'sel-family'), site=ctx.site(pa, pa.node))
+    B = ctx.sval(bp)
+    ctx.check(same(B.ret(), B.expr('next((x for x in self.ike_sas if x.peer_addr == %s))' % bp.call_params()[0])), 'Y4',
+              'the lookup compares the peer address of each table entry', key=('Y4', 'by-peer'), site=ctx.site(bp, bp.node),
+              detail={'returned': tq.text(B.ret())})
+    for c in ctors:
+        b = {k: strip_ids(v) for k, v in c.args.items()}
+        conf = strip_ids(A.expr('self.configuration.get_ike_configuration(MY, PEER)', dict(A.entry_env, MY=mine, PEER=peer)))
+        ok = b.get('is_initiator') == const(True) and b.get('my_addr') == mine and b.get('peer_addr') == peer and b.get('configuration') == conf
+        ctx.check(ok, 'Y4', 'the new IKE_SA is an initiator for (local = saddr, peer = id.daddr) with the connection configured for that '
+                  'address pair', key=('Y4', 'new-ike-sa'), site=ctx.site(pa, c.node), detail={'found': {k: tq.text(v, 200) for k, v in b.items()}})
+        ap = [x for x in A.calls if x.name == 'append' and strip_ids(x.recv or NONE) == attr(P('self'), 'ike_sas')]
+        ctx.check(len(ap) == 1 and list(ap[0].args.values())[0] == c.term and ap[0].seq > c.seq, 'Y4', 'and is registered in the table',
+                  key=('Y4', 'registered'), site=ctx.site(pa, c.node))
     if len(dec) == 1:
-        ctx.check([src(a) for a in dec[0].args[:2]] == ['small_tsi', 'small_tsr'] and src(dec[0].func.value) == 'ike_sa', 'Y4',
-                  'the IKE_SA is asked to negotiate with (source selector, destination selector, entry index)', key=('Y4', 'hand-over'),
-                  site=ctx.site(pa, dec[0]))
+        d = dec[0]
+        for name, addr, port in (('tsi', 'saddr', 'sport'), ('tsr', 'daddr', 'dport')):
+            want = strip_ids(A.expr('TrafficSelector.from_network(ip_network(%s.sel.%s.to_ipaddr(%s.sel.family)), %s.sel.%s, %s.sel.proto)' % (
+                p0, addr, p0, p0, port, p0)))
+            ctx.check(strip_ids(d.args.get(name, NONE)) == want, 'Y4', 'the %s selector is built from the acquire selector\'s %s / %s / proto, read '
+                      'in the selector\'s family' % ('source' if name == 'tsi' else 'destination', addr, port), key=('Y4', 'small_' + name),
+                      site=site, detail={'found': tq.text(d.args.get(name, NONE), 300)})
+        recv = strip_ids(d.recv or NONE)
+        parts = {recv} if recv[0] != 'cond' else {recv[2], recv[3]}
+        okr = parts <= {strip_ids(look[0].term) if look else None, strip_ids(ctors[0].term) if ctors else None} and len(parts) == 2
+        ctx.check(okr, 'Y4', 'the IKE_SA found or created is asked to negotiate with (source selector, destination selector, entry index)',
+                  key=('Y4', 'hand-over'), site=ctx.site(pa, d.node), detail={'receiver': tq.text(recv, 300)})
 
     # ---------------------------------------------------------------- Y4 IkeSa.process_acquire
     ia = ctx.func('ikesa.IkeSa.process_acquire')
-    gi = esc.add_exception_edges(ia)
+    I = ctx.sval(ia)
     ps = ia.call_params()
-    lk = None
-    for name, defs in res.local_defs(ia).items():
-        for d in defs:
-            if isinstance(d, ast.Call) and callee_name(d) == 'next' and len(d.args) == 1 and isinstance(d.args[0], ast.GeneratorExp):
-                ge = d.args[0]
-                if src(ge.generators[0].iter) == 'self.configuration.protect' and len(ge.generators[0].ifs) == 1:
-                    v = src(ge.generators[0].target)
-                    if src(ge.generators[0].ifs[0]) in ('%s.index == %s' % (v, ps[2]), '%s == %s.index' % (ps[2], v)) and src(ge.elt) == v:
-                        lk = (name, d)
-    ctx.check(lk is not None, 'Y4', 'the protect entry is looked up by the decoded index', key=('Y4', 'entry-lookup'), site=ctx.site(ia, ia.node))
-    if lk is not None:
-        ent, call = lk
-        n = common.node_of(gi, call)[0]
-        hs = [hn for (_, part, hns) in n.try_ctx if part == 'body' for hn in hns if 'StopIteration' in src(hn.ast.type)]
-        ok = len(hs) == 1
-        if ok:
-            r = gi.reach([hs[0]], follow_exc=False)
-            body = [m for m in gi.nodes if m.id in r and m.kind == 'stmt']
-            ok = all(isinstance(m.ast, ast.Return) and (m.ast.value is None or src(m.ast.value) == 'None') or (
-                isinstance(m.ast, ast.Expr) and isinstance(m.ast.value, ast.Call) and callee_name(m.ast.value).startswith('log_'))
-                for m in body) and any(isinstance(m.ast, ast.Return) for m in body)
-        ctx.check(ok, 'Y4', 'an acquire for an unknown index is ignored (logged, nothing else)', key=('Y4', 'unknown-index'), site=ctx.site(ia, call))
-        cs = [c for c in calls_in(ia.node) if callee_name(c) == 'ChildSa']
-        ctx.check(len(cs) == 1, 'Y4', 'process_acquire builds the pending ChildSa', key=('Y4', 'childsa'), site=ctx.site(ia, ia.node))
+    site = ctx.site(ia, ia.node)
+    want_lk = strip_ids(I.expr('next((x for x in self.configuration.protect if x.index == %s))' % ps[2]))
+    lk = [c for c in I.calls if strip_ids(c.term) == want_lk]
+    ctx.check(len(lk) == 1, 'Y4', 'the protect entry is looked up by the decoded index', key=('Y4', 'entry-lookup'), site=site,
+              detail={'next() calls': [tq.text(c.term, 200) for c in I.calls if c.callee == 'builtins.next']})
+    if len(lk) == 1:
+        ent = lk[0].term
+        miss = [(pc, t) for pc, t, _ in I.returns if any(a[0][0] == 'caught' and 'StopIteration' in tq.text(a[0]) for a in pc)]
+        under = [c for c in I.calls if any(a[0][0] == 'caught' and 'StopIteration' in tq.text(a[0]) for a in c.pc)]
+        st_under = [x for x in I.stores if any(a[0][0] == 'caught' and 'StopIteration' in tq.text(a[0]) for a in x[2])]
+        ok = len(miss) >= 1 and all(t == NONE for _, t in miss) and not st_under and all(
+            (c.name or '').startswith('log_') or c.callee in ('method.format', 'method.hex', 'builtins.str') for c in under)
+        ctx.check(ok, 'Y4', 'an acquire for an unknown index is ignored (logged, nothing else)', key=('Y4', 'unknown-index'),
+                  site=ctx.site(ia, lk[0].node))
+        cs = I.calls_to(callee='namedtuple.ChildSa')
+        ctx.check(len(cs) == 1, 'Y4', 'process_acquire builds the pending ChildSa', key=('Y4', 'childsa'), site=site)
         for c in cs:
-            kw = {k: src(v) for k, v in kwargs_of(c, names=[]).items()}
-            want = {'proposal': ent + '.proposal', 'original_proposal': ent + '.proposal', 'mode': ent + '.mode', 'lifetime': ent + '.lifetime',
-                    'tsi': '(%s, %s.my_ts)' % (ps[0], ent), 'tsr': '(%s, %s.peer_ts)' % (ps[1], ent)}
+            kw = c.args
+            want = {'proposal': attr(ent, 'proposal'), 'original_proposal': attr(ent, 'proposal'), 'mode': attr(ent, 'mode'),
+                    'lifetime': attr(ent, 'lifetime'), 'tsi': ('tuple', (P(ps[0]), attr(ent, 'my_ts'))),
+                    'tsr': ('tuple', (P(ps[1]), attr(ent, 'peer_ts')))}
             for k, v in want.items():
-                ctx.check(kw.get(k) == v, 'Y4', 'the negotiation uses %s = %s of that entry' % (k, v), key=('Y4', 'childsa', k),
-                          site=ctx.site(ia, c), detail={'found': kw.get(k)})
-        # before the lookup: only the busy test
-        st = [m for m in gi.nodes if m.kind == 'stmt' and isinstance(m.ast, (ast.Assign, ast.AugAssign)) and any(
-            isinstance(y, ast.Attribute) and isinstance(y.ctx, ast.Store) for t in (m.ast.targets if isinstance(m.ast, ast.Assign) else [m.ast.target])
-            for y in ast.walk(t)) and n.id in gi.reach([m])]
-        ctx.check(not st, 'Y4', 'nothing is stored on the IKE_SA before the entry was found', key=('Y4', 'no-early-store'), site=ctx.site(ia, ia.node))
+                ctx.check(kw.get(k) == v, 'Y4', 'the negotiation uses %s of that entry' % k, key=('Y4', 'childsa', k),
+                          site=ctx.site(ia, c.node), detail={'found': tq.text(kw[k], 200) if k in kw else None})
+        early = [x for x in I.stores if x[4] < lk[0].seq and x[0][0] == 'attr']
+        ctx.check(not early, 'Y4', 'nothing is stored on the IKE_SA before the entry was found', key=('Y4', 'no-early-store'), site=site)
 
 
 MANIFEST = {
@@ -232,6 +275,6 @@ MANIFEST = {
              'the entry found.',
     'note': 'Trusted: resolver typing. Declined: restart/crash-point histories; kernel SPD contents; that acquire selectors lie inside '
             'the entry (kernel behaviour).',
-    'technique': 'dominance + mirror (involution) check of sibling calls + finite evaluation of the index codec + provenance',
+    'technique': 'ordering and path conditions of calls over value terms + mirror (involution) check of sibling calls + finite evaluation of the index codec + provenance',
     'design_ref': 'DESIGN.md 3/C15',
 }
